@@ -446,39 +446,70 @@ void pf_batch_T(const mc::Params& P) {
   }
 }
 
+// ------------------------------------------------------------------------------------------ exploration helpers
+// A parameter of the exploration harnesses may be a dotted list; the value is then picked by mc::choose (cost 0, so
+// every combination is explored), which folds a whole configuration matrix into one run of the explorer.
+std::string sel(const mc::Params& P, const char* key, const char* def) {
+  std::vector<std::string> v = split(P.s(key, def));
+  if (v.empty()) return def;
+  if (v.size() == 1) return v[0];
+  MC_CHECK(v.size() <= 64, "harness: more than 64 alternatives for %s", key);
+  return v[(size_t)mc::choose((int)v.size())];
+}
+unsigned long long selnum(const mc::Params& P, const char* key, const char* def) { return strtoull(sel(P, key, def).c_str(), nullptr, 10); }
+
+int raw_sleeping(dispenso::ThreadPool& p) {
+  auto* ws = p.wakeState_.a_.load(std::memory_order_relaxed);
+  return ws ? (int)ws->totalSleeping_.a_.load(std::memory_order_relaxed) : 0;
+}
+// settle=1: the call starts on an idle pool (all workers on their way into the futex); keeps the explored
+// interleavings on the loop itself instead of on pool start-up. settle=0 explores the call racing pool start-up.
+void settle(dispenso::ThreadPool& pool, int N, bool on) {
+  if (on && N > 0) mc::block_until([&] { return raw_sleeping(pool) >= N; });
+}
+
 // ------------------------------------------------------------------------------------------ pf_one
 // One parallel_for call. at=0: start = off; at=min: start = MIN+off; at=max: end = MAX-off. The range has `size` elements.
 template <class T, class TS>
 void pf_one_T(const mc::Params& P) {
-  const int N = (int)P("n", 1);
   const int check = (int)P("check", 12);
-  const std::string at = P.s("at", "0");
-  const long off = P("off", 0);
-  const unsigned long size = (unsigned long)P("size", 4);
-  Opt o{parse_mode(P.s("mode", "s")), (uint32_t)strtoul(P.s("mt", "2147483647").c_str(), nullptr, 10), (uint32_t)P("mi", 1), (uint32_t)P("g", 1), P("wait", 1) != 0, N};
+  const int N = (int)selnum(P, "n", "1");
+  const std::string at = sel(P, "at", "0");
+  const long off = atol(sel(P, "off", "0").c_str());
+  const unsigned long long size = selnum(P, "size", "4");
+  Opt o{parse_mode(sel(P, "mode", "s")), (uint32_t)selnum(P, "mt", "2147483647"), (uint32_t)selnum(P, "mi", "1"), (uint32_t)selnum(P, "g", "1"),
+        selnum(P, "wait", "1") != 0, N};
+  const bool yield_in_body = P("yield", 0) != 0;
+  const bool do_settle = P("settle", 1) != 0;
   i128 s128, e128;
   if (at == "min") {
     s128 = Lim<T>::lo() + off;
-    e128 = s128 + size;
+    e128 = s128 + (i128)size;
   } else if (at == "max") {
     e128 = Lim<T>::hi() - off;
-    s128 = e128 - size;
+    s128 = e128 - (i128)size;
   } else {
     s128 = off;
-    e128 = s128 + size;
+    e128 = s128 + (i128)size;
   }
   MC_CHECK(s128 >= Lim<T>::lo() && e128 <= Lim<T>::hi(), "harness: range does not fit the type");
   T s = (T)s128, e = (T)e128;
   std::unique_ptr<Rec<T>> rec(new Rec<T>());
   rec->caller_tid = mc_self_id();
   Verdict<T> v;
+  const unsigned allowed = std::max<uint32_t>(1, o.mt);
   {
     dispenso::ThreadPool pool((size_t)N);
     TS ts(pool);
+    settle(pool, N, do_settle);
     rec->begin_call(0, s, e, &o);
-    auto body = [r = rec.get()](T lo, T hi) {
+    auto body = [r = rec.get(), check, allowed, yield_in_body](T lo, T hi) {
       r->enter(0, lo, hi);
+      if (check == 48)
+        MC_CHECK((unsigned)r->inflight.get() <= allowed, "C48: %d body invocations run at the same time with maxThreads=%u (latest [%s,%s)), for %s", r->inflight.get(),
+                 r->opt->mt, str(lo).c_str(), str(hi).c_str(), r->input().c_str());
       mc::point();
+      if (yield_in_body) std::this_thread::yield();
       r->leave();
     };
     call_pf(ts, s, e, o, body);
@@ -493,10 +524,7 @@ void pf_one_T(const mc::Params& P) {
   judge(*rec, s, e, o, v);
   if (check == 13)
     MC_CHECK(v.why13.empty(), "C13: %s for %s", v.why13.c_str(), rec->input().c_str());
-  else if (check == 48) {
-    unsigned allowed = std::max<uint32_t>(1, o.mt);
-    MC_CHECK((unsigned)rec->peak.get() <= allowed, "C48: %d body invocations ran at the same time with maxThreads=%u, for %s", rec->peak.get(), o.mt, rec->input().c_str());
-  } else
+  else if (check == 12)
     MC_CHECK(v.why12.empty(), "C12: %s for %s", v.why12.c_str(), rec->input().c_str());
   int n = (int)v.c.size();
   if (n > 1) mc::cover("multi_chunk");
@@ -505,7 +533,9 @@ void pf_one_T(const mc::Params& P) {
   if (rec->on_caller.get()) mc::cover("body_on_caller");
   if (rec->on_worker.get() && rec->on_caller.get()) mc::cover("caller_and_worker");
   if (rec->peak.get() >= 2) mc::cover("concurrent_bodies");
+  if ((unsigned)rec->peak.get() == allowed && allowed >= 2) mc::cover("peak_equals_maxThreads");
   if (v.nonmult == 1 && n > 1 && v.why13.empty()) mc::cover("granularity_tail");
+  if (o.g > 1 && o.mode.kind != 'c' && n > 1 && v.nonmult == 0) mc::cover("granular_chunks");
   uint64_t layout = 1469598103934665603ULL;
   for (auto& c : v.c) layout = fnv(fnv(layout, (uint64_t)c.first), (uint64_t)c.second);
   mc::observe("layout", (long)(layout & 0x7fffffff));
@@ -529,14 +559,18 @@ struct State {
 
 template <class C, class TS>
 void pf_state_C(const mc::Params& P) {
-  const int N = (int)P("n", 1);
   const int check = (int)P("check", 14);
-  const int size = (int)P("size", 4);
-  const int off = (int)P("off", 0);
-  const int pre = (int)P("pre", 0);
-  Opt o{parse_mode(P.s("mode", "s")), (uint32_t)strtoul(P.s("mt", "2147483647").c_str(), nullptr, 10), (uint32_t)P("mi", 1), (uint32_t)P("g", 1), P("wait", 1) != 0, N};
-  const bool reuse = P("reuse", 0) != 0;
-  mc::Shared<int> next_id{0}, inflight{0}, peak{0}, done{0}, tail_seen{0}, covered{0}, shared_state0{0};
+  const int N = (int)selnum(P, "n", "1");
+  const int size = (int)selnum(P, "size", "4");
+  const int off = atoi(sel(P, "off", "0").c_str());
+  const int pre = (int)selnum(P, "pre", "0");
+  Opt o{parse_mode(sel(P, "mode", "s")), (uint32_t)selnum(P, "mt", "2147483647"), (uint32_t)selnum(P, "mi", "1"), (uint32_t)selnum(P, "g", "1"),
+        selnum(P, "wait", "1") != 0, N};
+  const bool reuse = selnum(P, "reuse", "0") != 0;
+  const bool yield_in_body = P("yield", 0) != 0;
+  const bool do_settle = P("settle", 1) != 0;
+  const unsigned allowed = std::max<uint32_t>(1, o.mt);
+  mc::Shared<int> next_id{0}, inflight{0}, peak{0}, done{0}, tail_seen{0}, covered{0};
   C states;
   for (int i = 0; i < pre; i++) states.emplace_back(State(100 + i));
   auto gen = [&] { return State(next_id.add(1)); };
@@ -544,16 +578,23 @@ void pf_state_C(const mc::Params& P) {
   {
     dispenso::ThreadPool pool((size_t)N);
     TS ts(pool);
+    settle(pool, N, do_settle);
     auto body = [&](State& st, int lo, int hi) {
       MC_CHECK(done.get() == 0, "a body invocation [%d,%d) started after %s had returned", lo, hi, o.wait ? "parallel_for" : "wait()");
       int prev = st.inuse.add(1);
-      MC_CHECK(prev == 0, "C14: state object #%d is used by %d body invocations at the same time (the later one covers [%d,%d)); range [%d,%d) %s reuseExistingState=%d",
-               st.id, prev + 1, lo, hi, s, e, describe(o).c_str(), (int)reuse);
+      if (check == 14)
+        MC_CHECK(prev == 0, "C14: state object #%d is used by %d body invocations at the same time (the later one covers [%d,%d)); range [%d,%d) %s reuseExistingState=%d",
+                 st.id, prev + 1, lo, hi, s, e, describe(o).c_str(), (int)reuse);
       st.uses.add(1);
-      peak.max_with(inflight.add(1) + 1);
+      int now = inflight.add(1) + 1;
+      peak.max_with(now);
+      if (check == 48)
+        MC_CHECK((unsigned)now <= allowed, "C48: %d body invocations run at the same time with maxThreads=%u (latest [%d,%d)); range [%d,%d) %s", now, o.mt, lo, hi, s, e,
+                 describe(o).c_str());
       if (o.g > 1 && o.mode.kind != 'c' && (hi - lo) % (int)o.g != 0) tail_seen.set(1);
       covered.add(hi - lo);
       mc::point();
+      if (yield_in_body) std::this_thread::yield();
       inflight.add(-1);
       st.inuse.add(-1);
     };
@@ -576,20 +617,18 @@ void pf_state_C(const mc::Params& P) {
     MC_CHECK(inflight.get() == 0, "%d body invocation(s) still running when %s returned", inflight.get(), o.wait ? "parallel_for" : "wait()");
     done.set(1);
   }
-  MC_CHECK(covered.get() == size, "harness cross-check: bodies covered %d of %d indices", covered.get(), size);
-  if (check == 48) {
-    unsigned allowed = std::max<uint32_t>(1, o.mt);
-    MC_CHECK((unsigned)peak.get() <= allowed, "C48: %d body invocations ran at the same time with maxThreads=%u; range [%d,%d) %s", peak.get(), o.mt, s, e, describe(o).c_str());
-  }
+  MC_CHECK(covered.get() == size, "harness cross-check: bodies covered %d of %d indices; range [%d,%d) %s", covered.get(), size, s, e, describe(o).c_str());
   size_t count = 0;
   int used = 0;
   for (auto& st : states) {
     count++;
     if (st.uses.get()) used++;
   }
-  MC_CHECK(count >= 1, "C14: the states container is empty after parallel_for; range [%d,%d) %s reuseExistingState=%d", s, e, describe(o).c_str(), (int)reuse);
+  if (check == 14)
+    MC_CHECK(count >= 1, "C14: the states container is empty after parallel_for; range [%d,%d) %s reuseExistingState=%d", s, e, describe(o).c_str(), (int)reuse);
   if (tail_seen.get()) mc::cover("granularity_tail");
   if (peak.get() >= 2) mc::cover("concurrent_bodies");
+  if ((unsigned)peak.get() == allowed && allowed >= 2) mc::cover("peak_equals_maxThreads");
   if (used >= 2) mc::cover("several_states_used");
   if (reuse && pre) mc::cover("reused_existing_state");
   mc::observe("states", (long)count);
@@ -607,25 +646,25 @@ struct FeLog {
   mc::Shared<long> cur{-1};
   mc::Shared<int> inflight{0}, peak{0}, on_worker{0};
   int caller_tid = -1;
-};
-
-template <class C>
-struct Fill {
-  static C make(int total) { return C((size_t)total); }
+  unsigned allowed = 0; // > 0: C48 is checked at every application
+  bool yield_in_body = false;
 };
 
 // one for_each / for_each_n call on the first cnt of cnt+2 elements; returns "" or the violation text
 template <class C, class TS>
 std::string fe_call(TS& ts, FeLog& log, long id, int cnt, uint32_t mt, bool wait, bool api_n, bool with_point) {
-  C c = Fill<C>::make(cnt + 2);
+  C c((size_t)(cnt + 2));
   log.cur.set(id);
   log.peak.set(0);
-  auto f = [&log, id, with_point](Elem& x) {
+  auto f = [&log, id, with_point, mt](Elem& x) {
     MC_CHECK(log.cur.get() == id, "C15: the function was applied (call #%ld) after for_each / wait() had returned", id);
-    log.peak.max_with(log.inflight.add(1) + 1);
+    int now = log.inflight.add(1) + 1;
+    log.peak.max_with(now);
+    if (log.allowed) MC_CHECK((unsigned)now <= log.allowed, "C48: %d applications of for_each's function run at the same time with maxThreads=%u", now, mt);
     if (mc_self_id() != log.caller_tid) log.on_worker.set(1);
     x.hits.add(1);
     if (with_point) mc::point();
+    if (log.yield_in_body) std::this_thread::yield();
     log.inflight.add(-1);
   };
   dispenso::ForEachOptions fo;
@@ -646,7 +685,7 @@ std::string fe_call(TS& ts, FeLog& log, long id, int cnt, uint32_t mt, bool wait
     int want = i < cnt ? 1 : 0;
     if (x.hits.get() != want) {
       char buf[200];
-      snprintf(buf, sizeof buf, "element %d of %d was visited %d time(s), expected %d", i, cnt, x.hits.get(), want);
+      snprintf(buf, sizeof buf, "element %d (of n=%d) was visited %d time(s), expected %d", i, cnt, x.hits.get(), want);
       return buf;
     }
     i++;
@@ -700,7 +739,8 @@ MC_HARNESS(pf_batch) {
     mc::fail("harness: unknown type '%s'", t.c_str());
 }
 
-// params: type, at 0|min|max, off, size, mode, mt, mi, g, wait, n, check 12|13|48, cts
+// params (dotted lists allowed, every combination is explored): n, at 0|min|max, off, size, mode, mt, mi, g, wait;
+// single-valued: type i8|u8|i32|i64|u64, check 12|13|48, yield, settle, cts (i32 only)
 MC_HARNESS(pf_one) {
   std::string t = P.s("type", "i32");
   bool cts = P("cts", 0) != 0;
@@ -719,7 +759,8 @@ MC_HARNESS(pf_one) {
     mc::fail("harness: pf_one supports type i8|u8|i32|i64|u64, not '%s'", t.c_str());
 }
 
-// params: cont v|l|d, size, off, g, mode, mt, mi, wait, reuse, pre (elements already in the container), n, check 14|48, cts
+// params (dotted lists allowed): n, size, off, pre (elements already in the container), mode, mt, mi, g, wait, reuse;
+// single-valued: cont v|l|d, check 14|48, yield, settle, cts (vector only)
 MC_HARNESS(pf_state) {
   std::string c = P.s("cont", "v");
   bool cts = P("cts", 0) != 0;
@@ -733,7 +774,8 @@ MC_HARNESS(pf_state) {
     mc::fail("harness: unknown container '%s'", c.c_str());
 }
 
-// params: n pool threads, wait, cont dotted list of v|l|f, cnt dotted list, mt dotted list; both APIs are run
+// One execution = every combination of the dotted lists cont (v|l|f), cnt, mt, with both APIs, on one pool.
+// params: n pool threads, wait, cont, cnt, mt
 MC_HARNESS(fe_batch) {
   const int N = (int)P("n", 1);
   const bool wait = P("wait", 1) != 0;
@@ -741,6 +783,7 @@ MC_HARNESS(fe_batch) {
   std::vector<unsigned long> cnts = nums(P.s("cnt", "0.1.2.3.4.5.6")), mts = nums(P.s("mt", "0.1.2.3"));
   FeLog log;
   log.caller_tid = mc_self_id();
+  log.yield_in_body = P("yield", 0) != 0;
   long calls = 0, fails = 0;
   std::string first;
   {
@@ -760,6 +803,7 @@ MC_HARNESS(fe_batch) {
             }
             if (cnt == 0) mc::cover("n_zero");
             if (log.peak.get() >= 1) mc::cover("applied");
+            if (log.peak.get() >= 2) mc::cover("concurrent_applications");
           }
   }
   MC_CHECK(fails == 0, "C15: %ld of %ld for_each calls violated the property; first: %s", fails, calls, first.c_str());
@@ -767,20 +811,24 @@ MC_HARNESS(fe_batch) {
   mc::observe("calls", calls);
 }
 
-// params: cont v|l|f, cnt, mt, wait, n, api (n = for_each_n, e = for_each), check 15|48, cts
+// params (dotted lists allowed): n, cont v|l|f, cnt, mt, wait, api (n = for_each_n, e = for_each);
+// single-valued: check 15|48, yield, settle, cts
 MC_HARNESS(fe_one) {
-  const int N = (int)P("n", 1);
   const int check = (int)P("check", 15);
-  const bool wait = P("wait", 1) != 0;
-  const int cnt = (int)P("cnt", 3);
-  const uint32_t mt = (uint32_t)strtoul(P.s("mt", "2147483647").c_str(), nullptr, 10);
-  const char cont = P.s("cont", "v")[0];
-  const bool api_n = P.s("api", "n") == "n";
+  const int N = (int)selnum(P, "n", "1");
+  const char cont = sel(P, "cont", "v")[0];
+  const int cnt = (int)selnum(P, "cnt", "3");
+  const uint32_t mt = (uint32_t)selnum(P, "mt", "2147483647");
+  const bool wait = selnum(P, "wait", "1") != 0;
+  const bool api_n = sel(P, "api", "n") == "n";
   FeLog log;
   log.caller_tid = mc_self_id();
+  log.yield_in_body = P("yield", 0) != 0;
+  if (check == 48) log.allowed = std::max<uint32_t>(1, mt);
   std::string why;
   {
     dispenso::ThreadPool pool((size_t)N);
+    settle(pool, N, P("settle", 1) != 0);
     if (P("cts", 0)) {
       dispenso::ConcurrentTaskSet ts(pool);
       why = fe_dispatch(cont, ts, log, 0, cnt, mt, wait, api_n, true);
@@ -789,14 +837,11 @@ MC_HARNESS(fe_one) {
       why = fe_dispatch(cont, ts, log, 0, cnt, mt, wait, api_n, true);
     }
   }
-  if (check == 48) {
-    unsigned allowed = std::max<uint32_t>(1, mt);
-    MC_CHECK((unsigned)log.peak.get() <= allowed, "C48: %d applications ran at the same time with maxThreads=%u; for_each over %s n=%d wait=%d poolThreads=%d",
-             log.peak.get(), mt, cont_name(cont), cnt, (int)wait, N);
-  } else {
+  if (check == 15)
     MC_CHECK(why.empty(), "C15: %s: %s n=%d maxThreads=%u wait=%d poolThreads=%d %s", why.c_str(), cont_name(cont), cnt, mt, (int)wait, N, api_n ? "for_each_n" : "for_each");
-  }
   if (log.peak.get() >= 2) mc::cover("concurrent_applications");
+  if (log.allowed >= 2 && (unsigned)log.peak.get() == log.allowed) mc::cover("peak_equals_maxThreads");
   if (log.on_worker.get()) mc::cover("applied_on_worker");
+  if (!wait) mc::cover("returned_before_wait");
   mc::observe("peak", log.peak.get());
 }
